@@ -360,6 +360,13 @@ def cli_matrix(tier):
             cid += 1
             cases.append({'id': cid, 'req': rk, 'out': form, 'cwd': 'util 90% runs'})
 
+        # input names that are also shell patterns, each next to ANOTHER valid input that the pattern matches: the command line
+        # runs the file that was named (or fails when that file does not exist), never the sibling
+        for rk, inname, sib in (('ok', 'case[1].txt', 'case1.txt'), ('ok', 'what?.txt', 'what1.txt'), ('ok', 'all*.txt', 'all of them.txt'),
+                                ('missing', 'nothing[1].txt', 'nothing1.txt')):
+            cid += 1
+            cases.append({'id': cid, 'req': rk, 'out': 'rel', 'cwd': 'plain', 'inname': inname, 'sibling': sib})
+
         def run_case(c):
             d = os.path.join(root, f"case{c['id']}")
             cwd = os.path.join(d, c['cwd'])
@@ -368,7 +375,10 @@ def cli_matrix(tier):
             if c['req'] == 'ok_html':
                 os.makedirs(os.path.join(cwd, 'web out'))
             os.makedirs(os.path.join(d, 'abs out'))
-            inp = os.path.join(d, 'in put', 'request.txt')
+            inp = os.path.join(d, 'in put', c.get('inname', 'request.txt'))
+            if c.get('sibling'):
+                with open(os.path.join(d, 'in put', c['sibling']), 'w') as f:
+                    f.write(WL.GEO_BASE + 'Gradient 1, 48\n')
             if reqs[c['req']] is not None:
                 with open(inp, 'w') as f:
                     f.write(reqs[c['req']])
@@ -404,7 +414,7 @@ def cli_matrix(tier):
             if c['id'] % 3 == 0:
                 os.makedirs(os.path.join(d, 'in put', '.sub'), exist_ok=True)
                 os.symlink(os.path.join(d, 'in put', '.sub'), os.path.join(cwd, 'inlnk'))
-                inp_arg = os.path.join('inlnk', '..', 'request.txt')
+                inp_arg = os.path.join('inlnk', '..', os.path.basename(inp))
             if c['out'] == 'rel_dash':
                 cmd_tail = [inp_arg, '--', arg]
             elif c['id'] % 5 == 0:
